@@ -5,7 +5,7 @@ import itertools
 from ..srcmodel import AnalysisError, Unknown, unparse
 from .. import pipeline as P
 from .. import facts as F
-from ..microeval import eval_term
+from ..microeval import eval_term, run_function
 
 SELF = "ural.infer_redirection.infer_redirection"
 
@@ -150,6 +150,7 @@ def run(ctx):
     # the no-target path returns url unchanged
     plain = [r for r in rets if r.term == ("param", "url")]
     ctx.ob("R2", "returns-input-when-nothing-found", bool(plain), "infer_redirection has no path returning its argument unchanged", site)
+    fixed_point_table(ctx, "R4")
     ctx.rule("R3", "the cleaning step of infer_redirection deletes control characters only: a printable character (a space inside the embedded target) deleted before the search makes the returned target differ from the one literally embedded in the url")
     from .c02 import control_chars_language
     control_chars_language(ctx, "R3")
@@ -201,3 +202,51 @@ def _other_guard(conds, call):
                     if ("depth" in k) and v[0] == "binop" and v[1] in ("Sub", "Add"):
                         return True
     return False
+
+
+FIXED_POINT_CELLS = [
+    "http://a.com/x", "http://a.com/r?url=http%3A%2F%2Fb.org%2Fx", "http://a.com/r?url=http%3A%2F%2Fb.org%2F%3Fnext%3Dhttp%253A%252F%252Fc.net%252Fy", "http://a.com/r?url=%2Fx", "http://a.com/r?u=/x&v=1",
+    "http://a.com/?url=http://a.com/?url=http://a.com/", "http://a&url=%2Fx", "http://a.com&next=/x", "a.com?url=/", "http://a.com/?url=/", "http://a.com/?url=//b.org/x", "http://a.com/?url=https://", "http://a.com/?url=http://",
+    "https://b-org.cdn.ampproject.org/c/s/b.org/x", "https://b-org.cdn.ampproject.org/c/s/", "https://b-org.cdn.ampproject.org/c/s/b.org/r?url=http%3A%2F%2Fc.net", "https://www.youtube.com/redirect?q=b.org%2Fx&v=1", "http://a.com/url?q=http://b.org/x", "http://a.com/?q=http://b.org/x",
+    "http://a.com/?%75rl=http%3A%2F%2Fb.org", "http://a.com/?u\x00rl=http://b.org", "http://a.com/?redirect_to=/a?redirect_to=/b", "", "url=/x", "?url=/x", "http://a.com/?url=%252Fx",
+]
+
+
+def fixed_point_table(ctx, rule):
+    ctx.rule(rule, "model table (fixed point): infer_redirection, interpreted on one url per class {no key, absolute / nested / relative / protocol-relative / empty target, a key in host position, self-embedding, AMP / Marfeel cache with and without tail, youtube redirect, the 'q' key with and without its route, escaped or control-split key, double-escaped value, degenerate strings}: the recursive result is unchanged by a further application, equals what repeated non-recursive application converges to within 8 steps, and is the url itself or shorter")
+    from ..microeval import Raised
+    repo = ctx.repo
+    mod = repo.mod("infer_redirection")
+    ref = mod.func("infer_redirection")
+    site = mod.site(ref.node)
+    n = 0
+    for u in FIXED_POINT_CELLS:
+        try:
+            r = run_function(repo, ref, [u])
+            again = run_function(repo, ref, [r]) if isinstance(r, str) else None
+            step = u
+            for _ in range(8):
+                nxt = run_function(repo, ref, [step], {"recursive": False})
+                if nxt == step:
+                    break
+                step = nxt
+        except Raised as e:
+            ctx.ob(rule, "fixed-point/%r" % u, False, "infer_redirection(%r) raises %s" % (u, e.name), site, witness=u)
+            continue
+        except Unknown as e:
+            if "call depth" in str(e):
+                n += 1
+                ctx.ob(rule, "fixed-point/%r" % u, False, "infer_redirection(%r) recurses more than 40 levels deep on a url of %d characters: the recursion is not bounded by the url" % (u, len(u)), site, witness=u)
+                continue
+            ctx.undecided(rule, "infer_redirection(%r): %s" % (u, e))
+            continue
+        n += 1
+        problems = []
+        if again != r:
+            problems.append("applying it again gives %r" % (again,))
+        if step != r:
+            problems.append("step-by-step application converges to %r" % (step,))
+        if isinstance(r, str) and r != u and len(r) >= len(u):
+            problems.append("the result is not shorter than the url it is supposed to be embedded in")
+        ctx.ob(rule, "fixed-point/%r" % u, not problems, "infer_redirection(%r) gives %r: %s" % (u, r, "; ".join(problems)), site, witness=u, sample="%r -> %r" % (u, r) if "ampproject" in u or "a&url" in u else None)
+    ctx.require_instances(rule, n, len(FIXED_POINT_CELLS) - 3, "fixed-point cells")
